@@ -9537,14 +9537,14 @@ impl<'a> Parser<'a> {
                 }),
                 _ => self.expected("timezone value", self.peek_token())?,
             }
-        } else if variable.to_string() == "CHARACTERISTICS" {
+        } else if variable.to_string().eq_ignore_ascii_case("CHARACTERISTICS") {
             self.expect_keywords(&[Keyword::AS, Keyword::TRANSACTION])?;
             Ok(Statement::SetTransaction {
                 modes: self.parse_transaction_modes()?,
                 snapshot: None,
                 session: true,
             })
-        } else if variable.to_string() == "TRANSACTION" && modifier.is_none() {
+        } else if variable.to_string().eq_ignore_ascii_case("TRANSACTION") && modifier.is_none() {
             if self.parse_keyword(Keyword::SNAPSHOT) {
                 let snapshot_id = self.parse_value()?;
                 return Ok(Statement::SetTransaction {
